@@ -66,6 +66,7 @@ func (vc *VC) Run() {
 			}
 		}
 	}
+	vc.registerKeys()
 	vc.reach[0] = "true"
 	order := vc.rpo()
 	for _, b := range order {
@@ -212,6 +213,12 @@ func (vc *VC) mergeStates(b *ssa.BasicBlock, preds []*ssa.BasicBlock) *State {
 	keys := map[string]bool{}
 	for _, p := range preds {
 		for k := range vc.exit[p.Index].heap {
+			keys[k] = true
+		}
+	}
+	if !sameEpoch {
+		// predecessors live in different havoc epochs: every known key must be merged explicitly
+		for k := range vc.heapSort {
 			keys[k] = true
 		}
 	}
@@ -908,6 +915,14 @@ func (vc *VC) unop(x *ssa.UnOp, st *State) {
 		term := vc.load(st, x.X, t)
 		tv := vc.defVal(x, term)
 		vc.assume(vc.guard(), vc.typeInv(t, tv.S, st))
+		// package-level error variables (io.EOF, bufio.ErrBufferFull, ErrBad...) are initialised
+		// once with errors.New and never nil
+		if g, ok := x.X.(*ssa.Global); ok && types.Identical(t, types.Universe.Lookup("error").Type()) &&
+			(strings.HasPrefix(g.Name(), "Err") || strings.HasPrefix(g.Name(), "err") || g.Name() == "EOF") {
+			vc.assumeNote("package-level error variables (Err*, io.EOF) are non-nil and pairwise distinct objects")
+			vc.assume(vc.guard(), not(eq(sx("ityp", tv.S), "0")))
+			vc.assume(vc.guard(), eq(tv.S, vc.errGlobalConst(g)))
+		}
 	case token.ARROW:
 		vc.recv(x, st)
 	default:
@@ -937,6 +952,9 @@ func (vc *VC) convert(x *ssa.Convert, st *State) {
 		rd := vc.heapRead(st, elemKey(types.Typ[types.Byte]), types.Typ[types.Byte], sx("lelem", loc, k))
 		vc.assume(vc.guard(), fmt.Sprintf("(forall ((%s IX)) (! (=> %s (= %s (sat_ %s %s))) :pattern (%s)))",
 			k, and(vc.ar.le(ixInfo, vc.ar.ix(0), k), vc.ar.lt(ixInfo, k, sx("slen_", a.S))), rd, a.S, k, rd))
+		// the string of the fresh copy's bytes is the source string (extensionality instance)
+		vc.needStrOf()
+		vc.assume(vc.guard(), eq(sx("strof", vc.heapGet(st, elemKey(types.Typ[types.Byte]), types.Typ[types.Byte]), s), a.S))
 		vc.setVal(x, s)
 	case fok && isFloat(to):
 		if vc.ar.BV {
@@ -1306,4 +1324,46 @@ func stepDir(phi *ssa.Phi, e ssa.Value) int {
 func prog0Ghost(vc *VC, name string) (*GhostVar, bool) {
 	g, ok := vc.prog.cs.Ghosts[name]
 	return g, ok
+}
+
+// errGlobalConst: a fixed interface value per package-level error variable (distinct per variable).
+func (vc *VC) errGlobalConst(g *ssa.Global) string {
+	id := vc.prog.globalID(g)
+	n := "errval_" + mangle(g.Pkg.Pkg.Path()+"."+g.Name())
+	if !vc.declared[n] {
+		vc.declare(n, "Iface")
+		vc.facts = append(vc.facts, Fact{Seq: 0, Term: eq(n, fmt.Sprintf("(mkiface 999 (lroot (- %d)))", 100000+id)), Kind: "assume"})
+	}
+	return n
+}
+
+// registerKeys: heap keys syntactically used by the function (so that state merges across
+// havoc epochs keep them).
+func (vc *VC) registerKeys() {
+	for _, b := range vc.fn.Blocks {
+		for _, ins := range b.Instrs {
+			switch x := ins.(type) {
+			case *ssa.FieldAddr:
+				pt := x.X.Type().Underlying().(*types.Pointer).Elem()
+				st := pt.Underlying().(*types.Struct)
+				ft := st.Field(x.Field).Type()
+				if !isStruct(ft) && !isArray(ft) {
+					vc.heapKeySort(fieldKey(pt, x.Field), ft)
+				}
+			case *ssa.IndexAddr:
+				var et types.Type
+				switch u := x.X.Type().Underlying().(type) {
+				case *types.Slice:
+					et = u.Elem()
+				case *types.Pointer:
+					if a, ok := u.Elem().Underlying().(*types.Array); ok {
+						et = a.Elem()
+					}
+				}
+				if et != nil && !isStruct(et) && !isArray(et) {
+					vc.heapKeySort(elemKey(et), et)
+				}
+			}
+		}
+	}
 }
